@@ -5,8 +5,9 @@ import FP.Proofs.CondWalkCoverGraph
 * `cwc_weight_cond`: the weight of a condensation edge is its `multiplicity`;
 * `cwc_weight_scc`: the weight of the edge of an SCC with a member edge that is not ignored is 1;
 * `cwc_demand_eq`: on the edges of the instance the demand is the weight;
-* `cwc_live_le_mult`: with a duplicate-free ignore list of edges of the graph, the multiplicity is at
-  least the number of distinct parallel edges that are not ignored.
+* `cwc_live_le_mult`: with an ignore list of edges of the graph (duplicates allowed: they count once
+  since fix afcb013), the multiplicity is at least the number of distinct parallel edges that are not
+  ignored.
 -/
 namespace FP
 open FP.Spec CondInput
@@ -112,24 +113,25 @@ theorem cwc_mem_live {c : CondInput} {ab : Nat × Nat} {e : Edge} :
 theorem cwc_live_nodup (c : CondInput) (ab : Nat × Nat) : (cwcLive c ab).Nodup :=
   List.Pairwise.filter _ (cwc_nodup_eraseDups _)
 
-theorem cwc_live_le_mult {c : CondInput} (hnd : c.ignore.Nodup) (hsub : ∀ e ∈ c.ignore, e ∈ c.g.edges)
+theorem cwc_live_le_mult {c : CondInput} (hsub : ∀ e ∈ c.ignore, e ∈ c.g.edges)
     (ab : Nat × Nat) : ((cwcLive c ab).length : Int) ≤ c.multiplicity ab := by
-  let ign := c.ignore.filter fun e => c.comp e.1 != c.comp e.2 && (c.comp e.1, c.comp e.2) == ab
-  have hign : ign.Nodup := List.Pairwise.filter _ hnd
+  let ign := c.ignore.eraseDups.filter fun e =>
+    c.comp e.1 != c.comp e.2 && (c.comp e.1, c.comp e.2) == ab
+  have hign : ign.Nodup := List.Pairwise.filter _ (cwc_nodup_eraseDups _)
   have hle : (cwcLive c ab ++ ign).length ≤ (cwcPar c ab).length := by
     apply cwc_nodup_length_le
     · apply List.nodup_append.2
       refine ⟨cwc_live_nodup c ab, hign, ?_⟩
       intro x hx y hy hxy
       subst hxy
-      exact (cwc_mem_live.1 hx).2 (List.mem_filter.1 hy).1
+      exact (cwc_mem_live.1 hx).2 (List.mem_eraseDups.1 (List.mem_filter.1 hy).1)
     · intro x hx
       rcases List.mem_append.1 hx with hx | hx
       · exact cwc_mem_par.2 (cwc_mem_live.1 hx).1
       · have := List.mem_filter.1 hx
         have h2 := this.2
         simp only [Bool.and_eq_true, bne_iff_ne, ne_eq, beq_iff_eq] at h2
-        exact cwc_mem_par.2 ⟨hsub x this.1, h2.1, h2.2⟩
+        exact cwc_mem_par.2 ⟨hsub x (List.mem_eraseDups.1 this.1), h2.1, h2.2⟩
   rw [List.length_append] at hle
   unfold multiplicity
   show _ ≤ ((cwcPar c ab).length : Int) - (ign.length : Int)
